@@ -28,6 +28,17 @@ func (g *Gen) instr(st *BState, b *ssa.BasicBlock, in ssa.Instruction) {
 			_ = id
 		}
 		if in.IsAddr {
+			// an address-taken local: contracts name its current value as *name
+			if obj := in.Object(); obj != nil {
+				if _, isVar := obj.(*types.Var); isVar {
+					if al, ok := in.X.(*ssa.Alloc); ok {
+						if g.debugAddrs[b] == nil {
+							g.debugAddrs[b] = map[string]*ssa.Alloc{}
+						}
+						g.debugAddrs[b][obj.Name()] = al
+					}
+				}
+			}
 			return
 		}
 		if obj := in.Object(); obj != nil {
